@@ -2,6 +2,7 @@
 from __future__ import annotations
 
 import itertools
+import math
 
 import numpy
 
@@ -363,6 +364,21 @@ def search(ctx, broken):
                     try:
                         conv = getattr(C.obj_vec("g", s2, b_), "to_" + "".join(C.signames(s1)))()
                         extra.append(("library-converted", [float(x) for x in C.stored(conv)], b_, None))
+                    except Exception:  # noqa: BLE001
+                        pass
+            if s1[0] == "rhophi" and s2[0] == "rhophi":
+                # degenerate azimuth: the same geometric vector under DIFFERENT stored coordinates (rho = 0 with two values of phi,
+                # and phi shifted by a full turn). A kernel that compares Cartesian x, y for one key and stored rho, phi for its
+                # not_equal twin answers True to both == and != exactly here (seeded change C12-16).
+                for rho_, phis in ((0.0, (0.3, 1.1)), (2.5, (0.5, 0.5 + 2 * math.pi)), (0.0, (0.0, math.pi))):
+                    a_ = [rho_, phis[0]] + [1.0, 3.0][: dim - 2]
+                    if dim >= 3 and s1[1] == "z":
+                        a_[2] = 0.8
+                    try:
+                        conv = getattr(C.obj_vec("g", s1, a_), "to_" + "".join(C.signames(s2)))()
+                        b_ = [float(x) for x in C.stored(conv)]
+                        b_[0], b_[1] = rho_, phis[1]
+                        extra.append(("degenerate-azimuth", a_, b_, None))
                     except Exception:  # noqa: BLE001
                         pass
             for tag, a, b, _ in cases(dim, s1, s2, r) + extra:
